@@ -26,6 +26,13 @@ def rtCalls (disable avc : Bool) : PayState → Bytes → List C10.RtCall → Li
     let (os, buf') := observePkts avc buf frags
     os :: rtCalls disable avc st' buf' cs
 
+/-- all payloads of a history of calls on one payloader, in order -/
+def fragsCalls (disable : Bool) : PayState → List C10.RtCall → List Bytes
+  | _, [] => []
+  | st, c :: cs =>
+    let r := payload disable c.mtu st c.buffer
+    r.1 ++ fragsCalls disable r.2 cs
+
 def rtModel (i : C10.RtInput) : C10.RtObs :=
   { panicked := false, calls := rtCalls i.disable i.avc {} [] i.calls }
 
